@@ -299,6 +299,8 @@ func specsC15(tier string) []seqmc.Spec {
 			// all elements in the prefix, empty update path
 			pfx := op{kind: "upd", target: "t", ts: ts, prefix: ps("p/q"), ups: []updSpec{{ps(""), 1}}}
 			cfg.ops = append(cfg.ops, pfx)
+			// a list entry keyed by the empty string: an EMPTY index element
+			cfg.ops = append(cfg.ops, upd("t", "c[k=]", ts, ts))
 		}
 		cfg.ops = append(cfg.ops,
 			op{kind: "multi", target: "t", ts: 2, ups: []updSpec{{ps("x"), 1}, {ps("y/z"), 2}}, dels: []pathSpec{ps("k")}},
